@@ -1,0 +1,27 @@
+//go:build verif
+// +build verif
+
+// Exports of unexported helpers for the verification harness under /verif.
+// Compiled only with `-tags verif`; nothing here changes behaviour.
+
+package server
+
+import (
+	"net/http"
+
+	"github.com/vicanso/elton"
+	"github.com/vicanso/pike/cache"
+)
+
+func VerifGetCacheMaxAge(header http.Header) int { return getCacheMaxAge(header) }
+func VerifGetKey(req *http.Request) []byte       { return getKey(req) }
+func VerifRequestIsPass(req *http.Request) bool  { return requestIsPass(req) }
+
+func VerifGetCacheStatus(c *elton.Context) cache.Status        { return getCacheStatus(c) }
+func VerifSetCacheStatus(c *elton.Context, s cache.Status)     { setCacheStatus(c, s) }
+func VerifGetHTTPResp(c *elton.Context) *cache.HTTPResponse    { return getHTTPResp(c) }
+func VerifSetHTTPResp(c *elton.Context, r *cache.HTTPResponse) { setHTTPResp(c, r) }
+func VerifGetHTTPRespAge(c *elton.Context) int                 { return getHTTPRespAge(c) }
+func VerifSetHTTPRespAge(c *elton.Context, age int)            { setHTTPRespAge(c, age) }
+func VerifGetHTTPCacheMaxAge(c *elton.Context) int             { return getHTTPCacheMaxAge(c) }
+func VerifSetHTTPCacheMaxAge(c *elton.Context, age int)        { setHTTPCacheMaxAge(c, age) }
